@@ -16,6 +16,7 @@ package marbl
 
 import (
 	"bufio"
+	"bytes"
 	"encoding/binary"
 	"fmt"
 	"io"
@@ -78,6 +79,27 @@ func NewReader(r io.Reader) *Reader {
 	}
 }
 
+// readN reads exactly n bytes from r. The buffer grows as data arrives instead
+// of being sized from n up front, so a corrupt or hostile length field cannot
+// force a multi-gigabyte allocation. Like io.ReadFull it returns io.EOF if no
+// bytes were read and io.ErrUnexpectedEOF if the input ends early.
+func readN(r io.Reader, n uint64) ([]byte, error) {
+	if n == 0 {
+		return []byte{}, nil
+	}
+
+	var buf bytes.Buffer
+	m, err := io.CopyN(&buf, r, int64(n))
+	if err == io.EOF && m > 0 {
+		err = io.ErrUnexpectedEOF
+	}
+	if err != nil {
+		return nil, err
+	}
+
+	return buf.Bytes(), nil
+}
+
 // ReadFrame reads from r, determines the FrameType, and returns either a Header or Data and an error.
 func (r *Reader) ReadFrame() (Frame, error) {
 	fh := make([]byte, 10)
@@ -101,8 +123,9 @@ func (r *Reader) ReadFrame() (Frame, error) {
 		nl := binary.BigEndian.Uint32(lens[:4])
 		vl := binary.BigEndian.Uint32(lens[4:])
 
-		nv := make([]byte, int(nl+vl))
-		if _, err := io.ReadFull(r.r, nv); err != nil {
+		// nl+vl may not fit in 32 bits: add in 64 bits so that the sum cannot wrap.
+		nv, err := readN(r.r, uint64(nl)+uint64(vl))
+		if err != nil {
 			return nil, err
 		}
 
@@ -130,9 +153,8 @@ func (r *Reader) ReadFrame() (Frame, error) {
 
 		dl := binary.BigEndian.Uint32(desc[5:])
 
-
-		data := make([]byte, int(dl))
-		if _, err := io.ReadFull(r.r, data); err != nil {
+		data, err := readN(r.r, uint64(dl))
+		if err != nil {
 			return nil, err
 		}
 
